@@ -186,7 +186,7 @@ func c14RenderWith(r *fw.Rec, ws *writerSpec, w gozxing.Writer, content string, 
 	}
 	defer func() {
 		// the hint map is the caller's: a writer reads it
-		if hints != nil && fmt.Sprint(before) != fmt.Sprint(hints) {
+		if hints != nil && hintsSnapshot(before) != hintsSnapshot(hints) {
 			r.Violation("model-mismatch", "render:"+ws.Name+":hint-map-changed-by-the-writer", fmt.Sprintf("%s.Encode changed the caller's hint map from %v to %v", ws.Name, before, hints), map[string]interface{}{"writer": ws.Name, "content": content})
 		}
 	}()
